@@ -72,7 +72,7 @@ func defOfCase(lines []string) *Def {
 		ws := strings.Fields(l)
 		if len(ws) >= 2 && ws[0] == "gn" {
 			switch ws[1] {
-			case "opt", "type", "const", "block", "skip", "other", "parsable", "col":
+			case "opt", "type", "const", "block", "skip", "other", "parsable", "col", "pre":
 				d.addLine(ws)
 			}
 		}
@@ -243,6 +243,10 @@ func runC05(f *hx.Flags, w *world) int {
 			defs = append(defs, g.shapedDef(traitShape{opts: opts, fixedCols: stringish[:2+(k+b)%3], allParsable: k%2 == 0,
 				rowless: true, emptyStr: (k+b)%2 == 1, dups: k%3 == 2, nTypes: 1, nConsts: 3 + (k+b)%4}))
 		}
+		// a parsable trait whose type is another enum of the package, generated earlier (it decodes
+		// itself: native block), next to integer and string traits
+		defs = append(defs, g.shapedDef(traitShape{opts: optSets[(3*b+1)%len(optSets)], fixedCols: []string{"int", "Str"}, allParsable: true,
+			selfCol: true, nTypes: 1, nConsts: 4 + b, rowless: b%2 == 1}))
 		// value names that are YAML/JSON-significant identifiers (one such file per package)
 		defs = append(defs, g.yamlNamesDef(optSets[(2*b)%len(optSets)]))
 		for i := 0; i < batch; i++ {
@@ -307,6 +311,15 @@ func runC12(f *hx.Flags, w *world) int {
 		defs = append(defs,
 			g.shapedDef(traitShape{opts: opt(2), fixedCols: []string{"Str", "Str", "Sm", "Sm", "int8"}, allParsable: true, nTypes: 1, nConsts: 3 + b}),
 			g.shapedDef(traitShape{opts: opt(3), fixedCols: []string{"Un", "Un", "uint16", "Str", "Str"}, allParsable: true, nTypes: 1, nConsts: 3 + b, rowless: b%2 == 1}))
+		// (e) a parsable trait whose type is another enum of the package generated by an EARLIER
+		// invocation (self-unmarshalling: native block), alone and next to other families
+		defs = append(defs,
+			g.shapedDef(traitShape{opts: opt(5), fixedCols: []string{"int", "string"}, allParsable: true, selfCol: true, nTypes: 1, nConsts: 4, dups: b%2 == 1}),
+			g.shapedDef(traitShape{opts: opt(6), fixedCols: []string{"uint8"}, allParsable: b%2 == 0, selfCol: true, nTypes: 2, sharedNames: true, nConsts: 3}))
+		// (f) ONE invocation for several types that share their parsable trait names
+		defs = append(defs, g.shapedDef(traitShape{opts: opt(7), fixedCols: []string{"int", "Str", "uint8"}, allParsable: true, nTypes: 2, sharedNames: true, nConsts: 3 + b}))
+		// (g) parsable traits of different types with the same literal text on different members
+		defs = append(defs, g.textCollisionDef(3*b), g.textCollisionDef(3*b+1), g.textCollisionDef(3*b+2))
 		// families the template has no (bool) or a recent (untyped rune) decoder branch for, parsable:
 		// two values only, so that the bool constants stay pairwise distinct
 		defs = append(defs, g.shapedDef(traitShape{opts: opt(4), fixedCols: []string{"bool", "rune", "string"}, allParsable: true, nTypes: 1, nConsts: 2}))
